@@ -57,6 +57,7 @@ func main() {
 	n := fs.Int("n", 30, "")
 	idx := fs.Int("idx", 0, "")
 	from := fs.Int("from", 0, "")
+	isoEvery := fs.Int("iso-every", 0, "")
 	cliDir := fs.String("cli-dir", "", "directory with the CLI binaries built from the tree (C15)")
 	fs.Parse(os.Args[2:])
 	if *cliDir != "" {
@@ -69,7 +70,7 @@ func main() {
 			known: *known, replays: *replays, workdir: *workdir, instrRep: *instr}))
 	case "worker":
 		os.Exit(runWorker(workerCfg{prop: *prop, tier: *tier, seeds: parseSeeds(*seeds), shard: *shard, nshards: *nshards,
-			count: *count, perSeed: *perSeed, out: *out, journal: *journal, maxViols: 12}))
+			count: *count, perSeed: *perSeed, out: *out, journal: *journal, maxViols: 12, isoEvery: *isoEvery}))
 	case "digest":
 		os.Exit(runDigest(*prop, *tier, *seed, *from, *n))
 	case "gen":
